@@ -1,4 +1,5 @@
 mod c03;
+mod c23;
 mod c26;
 mod checks;
 mod decode;
